@@ -417,6 +417,18 @@ func runC04(c *Ctx) *Replay {
 		c.Count("no_record", 1)
 		return nil
 	}
+	if c.R.Chance(1, 10) {
+		// DEEP values: the evolved message far down a spine of nested records, or enclosing one
+		cfg.MaxDepth = c.R.Range(5, 12)
+		cfg.MaxElems = 1
+		cfg.FullMsg = 95
+		cfg.Ladder, cfg.LongProb = 0, 0
+		if c.R.Chance(1, 2) {
+			cfg.MaxDepth = c.R.Range(12, 40)
+			cfg.MaxNodes = 120
+		}
+		c.Count("deep_values", 1)
+	}
 	g := val.NewGen(sb.Schema, c.R.Fork("value"), cfg)
 	d := cands[c.R.Intn(len(cands))]
 	if !g.Inhabited(d.Name) {
